@@ -6,6 +6,7 @@ https://github.com/ericmjl/dl-workshop/blob/6ef9b7feb60dd5f6a4dbdda4dc899337e583
 import itertools
 
 import jax.numpy as np
+import numpy as onp
 import jax.typing
 from jax.scipy import stats
 
@@ -337,7 +338,8 @@ class GMMEstimator:
         self.final_state_norm = None
         self.threshold = threshold
         self.verbose = verbose
-        self.is_deterministic = True if self.data.std() < threshold else False
+        # float64 (numpy): the float32 std of constant data is not 0 (rounding of the mean), e.g. 9.5e-7 for 20 x 12.3
+        self.is_deterministic = True if onp.asarray(data, dtype=onp.float64).std() < threshold else False
         self._mean = np.mean(data)
         self._std = np.std(data)
         self._data_norm: np.ndarray = (data - data.mean()) / max(data.std(), 1e-7) if not self.is_deterministic else data
